@@ -366,3 +366,25 @@ def rich_programs(rng, n, values):
         ph = _re.sub(r"~([A-Z]+)~", lambda m: fill(m, False), skel)
         out.append((name, src, ph, slot_vals, ["PHzz%dq" % i for i in range(nslots)]))
     return out
+
+
+def based_boundary(rng, n=12):
+    """(spelling, value) of 0x / 0o / 0b integer literals around the digit caps and the i64 boundary, with and without
+    underscore separators.  The reference gives them the value of their digits; an implementation may reject a spelling
+    (too many digits, separators it does not accept) but must never give it another value."""
+    out = []
+    fmt = {16: "x", 8: "o", 2: "b"}
+    for base, pfx in ((16, "0x"), (8, "0o"), (2, "0b")):
+        vals = [2**63 - 1, 2**63, 2**63 + 1, 2**64 - 1, 2**64, 2**62, 2**48 - 1, 2**48, 2**36 - 1, 2**36, 2**32 - 1, 2**32, 2**33 - 1, 255]
+        vals += [rng.randrange(2**rng.choice([8, 31, 40, 62, 63, 64, 70])) for _ in range(n)]
+        for v in vals:
+            ds = format(v, fmt[base])
+            if rng.random() < 0.3:
+                ds = ds.upper() if base == 16 else ds
+            out.append((pfx + ds, v))
+            g = ""
+            for i, ch in enumerate(reversed(ds)):
+                g = ch + ("_" if i and i % 4 == 0 else "") + g
+            out.append((pfx + g, v))
+            out.append((pfx + "_" + ds, v))
+    return list(dict.fromkeys(out))
